@@ -1,6 +1,7 @@
 """Property id -> check function."""
 import p_channel
 import p_halflock
+import p_iterator
 import p_registry
 
 
@@ -35,4 +36,12 @@ def c06(chk, tier):
     p_channel.run_channel(chk, tier)  # invariants and event classes selected by chk.pid
 
 
-CHECKS = {"C02": c02, "C04": c02, "C05": c02, "C03": c02, "C01": c01, "C18": c18, "C06": c06, "C07": c06, "C08": c06}
+def c09(chk, tier):
+    chk.extra["rule"] = ("real code: every schedule (DFS, preemption-bounded where stated, deliveries nested on the "
+                         "consumer's thread, close()/add_signal() on other threads) of small iterator scenarios; a "
+                         "case is one schedule, distinct = distinct abstract event traces; oracle = "
+                         "TraceIteratorAbs.tla via TLC")
+    p_iterator.run_iterator(chk, tier)
+
+
+CHECKS = {"C09": c09, "C10": c09, "C11": c09, "C02": c02, "C04": c02, "C05": c02, "C03": c02, "C01": c01, "C18": c18, "C06": c06, "C07": c06, "C08": c06}
